@@ -374,6 +374,8 @@ int32_t tls13DeriveHandshakeTrafficSecrets(ssl_t *ssl)
             &hsSecretLen);
     if (rc < 0)
     {
+        tls13ClearSecret(sharedSecret, sharedSecretLen);
+        psFree(sharedSecret, ssl->hsPool);
         return rc;
     }
     psAssert(hsSecretLen == secretLen);
